@@ -1,8 +1,10 @@
 package main
 
 import (
+	"io"
 	"net/netip"
 	"reflect"
+	"strconv"
 
 	"verif/engine/sym"
 
@@ -21,5 +23,8 @@ func setupNetip(e *sym.Engine, st *sym.State, l *sym.Loaded) {
 	e.NativeGlob["github.com/miekg/dns.StringToType"] = &dns.StringToType
 	e.NativeGlob["github.com/miekg/dns.StringToRcode"] = &dns.StringToRcode
 	e.NativeGlob["github.com/miekg/dns.TypeToString"] = &dns.TypeToString
+	e.NativeGlob["strconv.ErrSyntax"] = &strconv.ErrSyntax
+	e.NativeGlob["strconv.ErrRange"] = &strconv.ErrRange
+	e.NativeGlob["io.EOF"] = &io.EOF
 	e.PreloadGlobals(st)
 }
